@@ -26,6 +26,8 @@ type TreeCase struct {
 	// Slow lists actors whose OnKill handler blocks on a gate (an actor that needs a while to shut down);
 	// the gates are opened in this order, one settled step at a time, after the Stop / cancel was issued
 	Slow []string `json:"slow,omitempty"`
+	// LateOpen: the slow actors only finish after the Stop has timed out
+	LateOpen bool `json:"lateOpen,omitempty"`
 }
 
 func (c TreeCase) JSON() string { b, _ := json.Marshal(c); return string(b) }
@@ -53,6 +55,7 @@ func genTreeCase(rt *rapid.T) TreeCase {
 			c.Scenario.Tree[i].Spec.GateKill = g
 			c.Slow = append(c.Slow, g)
 		}
+		c.LateOpen = c.How == "stop-timeout" && c.TimeoutMs <= 1000 && rapid.Bool().Draw(rt, "lateOpen")
 	}
 	return c
 }
@@ -94,13 +97,33 @@ func runTree(t *testing.T, c TreeCase) (v *verdict, nontrivial bool, labels []st
 			w.Cancel()
 		}
 		vt.Settle()
+		if c.LateOpen {
+			// the Stop times out on the slow actors; they finish later
+			vt.Advance(limit + time.Second)
+			select {
+			case r := <-done:
+				// the slow actors may be gone already (killed or stopped by the script): then Stop succeeds at once
+				okNil := r.err == nil && r.after <= limit
+				okFailed := errCode(r.err) == "StopFailed" && r.after == limit
+				if !okNil && !okFailed {
+					v = &verdict{"C07/stop-within-timeout|slow-actor", fmt.Sprintf("actors %v block in OnKill; Stop(%v) returned %v after %v (expected nil within the timeout or the stop-failed error exactly at it)", c.Slow, limit, r.err, r.after)}
+					return
+				}
+				if okFailed {
+					lab["stop-timed-out-on-slow-actor"] = true
+				}
+			default:
+				v = &verdict{"C07/no-hang|stop", fmt.Sprintf("Stop(%v) has not returned %v (virtual) after the call", limit, time.Since(t0))}
+				return
+			}
+		}
 		// the slow actors finish their OnKill handlers one after the other (no virtual time passes)
 		for _, g := range c.Slow {
 			w.Open(g)
 			vt.Settle()
 		}
 		vt.Advance(limit + 2*time.Second)
-		if c.How != "cancel" {
+		if c.How != "cancel" && !c.LateOpen {
 			select {
 			case r := <-done:
 				if r.after > limit+time.Millisecond {
@@ -132,6 +155,13 @@ func runTree(t *testing.T, c TreeCase) (v *verdict, nontrivial bool, labels []st
 		// a further Stop answers at once
 		if err := w.Sys.Stop(time.Second); errCode(err) != "AlreadyStopped" {
 			v = &verdict{"C07/one-way|stop-after-stop", fmt.Sprintf("Stop on the stopped system returned %v", err)}
+			return
+		}
+		// nothing of the system is left (waiters of the script's own asks have returned by now)
+		w.Cancel()
+		vt.Settle()
+		if n, st := bubbleGoroutines(); n > 1 {
+			v = &verdict{"C07/no-goroutine-left", fmt.Sprintf("%d goroutines remain after %s, every actor gone and 5 virtual minutes later:\n%s", n-1, c.How, st)}
 			return
 		}
 	})
